@@ -414,7 +414,12 @@ fn if_expression<'t>(ctx: Context<'t>) -> ParseResult<'t, Expression> {
     let (ctx, old_skip) = ctx.push_skip_newlines(true);
     let (ctx, condition) = expression(ctx)?;
     let ctx = ctx.pop_skip_newlines(old_skip);
-    let (ctx, body) = block(expect!(ctx, T::Do, "Expected 'do' after if condition"))?;
+    // `block` takes the `do` itself. Eating it here as well made a block statement that comes first in
+    // the branch lose its own `do` whenever newlines are skipped (inside brackets).
+    if !matches!(ctx.token(), T::Do) {
+        raise_syntax_error!(ctx, "Expected 'do' after if condition");
+    }
+    let (ctx, body) = block(ctx)?;
     let condition = Some(condition);
 
     let mut branches = vec![{ IfBranch { span, condition, body } }];
@@ -427,7 +432,10 @@ fn if_expression<'t>(ctx: Context<'t>) -> ParseResult<'t, Expression> {
             let (ctx, old_skip) = ctx.push_skip_newlines(true);
             let (ctx, condition) = expression(ctx)?;
             let ctx = ctx.pop_skip_newlines(old_skip);
-            let (ctx, body) = block(expect!(ctx, T::Do, "Expected 'do' after elif condition"))?;
+            if !matches!(ctx.token(), T::Do) {
+                raise_syntax_error!(ctx, "Expected 'do' after elif condition");
+            }
+            let (ctx, body) = block(ctx)?;
             let condition = Some(condition);
             (ctx, IfBranch { span, condition, body })
         };
@@ -437,7 +445,11 @@ fn if_expression<'t>(ctx: Context<'t>) -> ParseResult<'t, Expression> {
 
     let ctx = if matches!(ctx.token(), T::Else) {
         let span = ctx.span();
-        let ctx = expect!(ctx, T::Else);
+        // The optional `do` of the else-branch has to follow on the same line: step over `else` with
+        // newlines significant, so that a block statement on the next line keeps its own `do` also
+        // where newlines are otherwise skipped (inside brackets).
+        let (ctx, old_skip) = ctx.push_skip_newlines(false);
+        let ctx = expect!(ctx, T::Else).pop_skip_newlines(old_skip);
         let (ctx, body) = block(ctx)?;
         branches.push(IfBranch { span, condition: None, body });
         ctx
